@@ -317,7 +317,15 @@ func checkWatcherTable(c *Ctx) {
 	c.notes = append(c.notes, fmt.Sprintf("_watcher.run: %d iteration paths, %d abstract rows", len(paths), rows))
 
 	// the retry closure sends its captured version on its captured channel, nothing else
-	if cl := c.mustFunc("", "_watcher.scheduleRetry$1"); cl != nil {
+	var retryCl *ssa.Function
+	if sr := c.mustFunc("", "_watcher.scheduleRetry"); sr != nil {
+		retryCl = closureArgOf(sr, "time.AfterFunc")
+		if retryCl == nil {
+			c.undecided(rule, "_watcher.scheduleRetry$1/sends-captured-version-once", c.P.fnPos(sr), "scheduleRetry does not hand exactly one closure to time.AfterFunc")
+		}
+	}
+	if cl := retryCl; cl != nil {
+		c.useFn(cl)
 		ps := (&Walker{P: c.P}).FuncRegion(cl)
 		c.paths += len(ps)
 		ok := len(ps) == 1
